@@ -21,9 +21,26 @@
       creation ([C03_preselection_complete_after_every_history]) - a typed query that preselects the
       archetypes of its rarest component walks exactly the same matching archetypes, in the same
       order, as the walk over all archetypes: same walk, same Count, same rows, also when the walk
-      panics ([C03_preselection_complete]). *)
+      panics ([C03_preselection_complete]).
+    - END TO END, WORLDS WITH RELATION COMPONENTS (QueryExactIdx.v, QueryExact.v): in every state of a history
+      with entity operations, relations, filters, registration and queries (locked states included) the
+      relation-tier invariant holds, the component index is exact and the filter cache is linked
+      ([C03_index_exact_after_every_history]); and for every filter object and every accepted Query(rels...)
+      - typed with rare-component preselection, registered (cached), or unsafe - the visited entities are,
+      each once, exactly those characterised ON THE ABSTRACT WORLD ([live], [comps_of], [tgt] with
+      generations): [matches_spec] for typed filters ([C03_query_exact_typed_after_every_history]) and
+      whenever the relations name relation components of the mask ([C03_query_exact_ok_after_every_history]);
+      [qx_model] in general ([C03_query_exact_after_every_history]: an UnsafeFilter query with arbitrary
+      relations also lists the entities WITHOUT relation components, and needs a relation component in first
+      position - [C03_unsafe_natural_refuted]). Count = the number visited, EntityAt i = the i-th visited,
+      the visited list is a permutation of the filtered list of all rows; OQueryAll reports exactly that
+      ([C03_query_all_exact]). The same in every state of a history WITH OBSERVERS (QueryExactO.v, class of
+      Rel2HistO) and of a history WITH RESETS (QueryExactR.v, class of Rel2HistR): [C03_query_exact_with_observers],
+      [C03_query_exact_with_resets]. *)
 From Ark Require Import Model.Base Model.Mask Model.Pool Model.Util Model.World Model.Run.
 From Ark Require Import Proofs.ObsDoc Proofs.WF Proofs.StorageA Proofs.QueryProofs Proofs.RelProofs Proofs.StorageD Properties.Common.
+From Ark Require Proofs.QueryExactIdx Proofs.QueryExact Proofs.QueryExactO Proofs.QueryExactR.
+From Ark Require Import Proofs.Rel2Defs Proofs.Rel2Hist Proofs.Rel2HistQ Proofs.Rel2Cache Proofs.QueryExactIdx Proofs.QueryExact.
 
 Theorem C03_filter_matches_sets : forall f m,
   filter_matches f m = true <->
@@ -85,6 +102,61 @@ Definition C03_preselection_complete := preselection_complete.
 Definition C03_preselection_complete_after_every_history := reachable_queries_preselection_complete.
 Definition C03_preselection_examples := (sd_world_inv5, sd_world_shape, sd_world_preselection).
 
-Definition C03_all := (C03_preselection_complete, C03_preselection_complete_after_every_history, C03_preselection_examples, C03_filter_matches_sets, C03_exclusive_exact, C03_iteration_is_the_walk, C03_count_is_visited,
-  C03_entity_at, C03_queries_do_not_write, C03_targets_compare_generations).
+(** ** Worlds with relation components: the query specification, end to end *)
+Definition C03_index_exact_after_every_history := (QueryExactIdx.reachable_inv2QC, QueryExactIdx.reachable_inv2QF).
+Definition C03_index_step := (QueryExactIdx.step_inv2QC, QueryExactIdx.step_inv2QF).
+Definition C03_model_is_spec := (QueryExact.qx_model_natural, QueryExact.qx_exclusive_exact).
+Definition C03_model_is_rows := (QueryExact.qx_model_table, QueryExact.qx_rows_spec, QueryExact.qx_all_rows_spec).
+Definition C03_spec_executable := (QueryExact.qx_model_b_spec, QueryExact.matches_spec_b_spec).
+Definition C03_query_exact := (QueryExact.qx_query_exact, QueryExact.qx_query_exact_typed, QueryExact.qx_query_exact_ok).
+Definition C03_query_exact_after_every_history := QueryExact.reachable_query_exact.
+Definition C03_query_exact_typed_after_every_history := QueryExact.reachable_query_exact_typed.
+Definition C03_query_exact_ok_after_every_history := QueryExact.reachable_query_exact_ok.
+Definition C03_query_all_exact := QueryExact.qx_query_all_exact.
+Definition C03_unsafe_natural_refuted := (QueryExact.qx_unsafe_natural_refuted, QueryExact.qx_unsafe_natural_refuted_prop).
+Definition C03_query_exact_examples :=
+  (QueryExactIdx.qx_script_inv, QueryExactIdx.qx_mid_inv, QueryExact.qx_ex_inv, QueryExact.qx_ex_shape,
+   QueryExact.qx_ex_typed_recycled, QueryExact.qx_ex_typed_first, QueryExact.qx_ex_typed_stale_rejected,
+   QueryExact.qx_ex_registered, QueryExact.qx_ex_unsafe_model, QueryExact.qx_ex_query_all).
+
+Definition C03_query_exact_with_observers :=
+  (QueryExactO.step_inv2OF, QueryExactO.reachable_inv2OF, QueryExactO.reachable_query_exact_O,
+   QueryExactO.reachable_query_exact_typed_O, QueryExactO.reachable_query_exact_ok_O, QueryExactO.qxo_script_inv).
+Definition C03_query_exact_with_resets :=
+  (QueryExactR.qxr_keep_reset, QueryExactR.step_inv2RF, QueryExactR.qxr_run_inv, QueryExactR.reachable_inv2RF,
+   QueryExactR.reachable_query_exact_R, QueryExactR.reachable_query_exact_typed_R, QueryExactR.reachable_query_exact_ok_R,
+   QueryExactR.qxr_script_inv, QueryExactR.qxr_after_reset).
+
+(** ** Every query the operation language accepts - typed, registered or ID-based - visits exactly the entities that
+    match in the NATURAL sense ([matches_spec]: alive, has the required components, none of the excluded ones, and for
+    every relation given in the filter or per query the entity's target of that component is exactly the given entity,
+    generation included), each once. UnsafeFilter.Query validates its relation arguments since the repair of the
+    defect "an ID-based query with a relation on a component outside its filter lists entities that do not have that
+    relation" ([C03_unsafe_natural_refuted] shows what [query_open] does with unvalidated lists). *)
+Theorem C03_accepted_queries_obey_the_natural_specification :
+  forall (d : bool) (s : W) (fi : nat) (f : fobj) (hrels : list hrel) (out : list Z) (s2 : W),
+         St2 s ->
+         archs_tabled_norel s ->
+         r2k_cidx_ok s ->
+         qx_FL s ->
+         r2q_filters_ok s ->
+         nth_error (w_filters s) fi = Some f ->
+         step_op d (OQueryAll fi hrels) s = Ok out s2 ->
+         exists (rels : list rel) (vis : list ent),
+           out = Zn (length vis) :: Zn (length vis) :: flat_map Zent vis /\
+           NoDup vis /\ (forall e : ent, In e vis <-> matches_spec s f (f_rels f ++ rels) e).
+Proof. exact qx_query_all_natural. Qed.
+
+Theorem C03_unsafe_query_relations_are_validated :
+  forall (s : wstate) (fi : nat) (f : fobj) (rels : list rel),
+         nth_error (w_filters s) fi = Some f ->
+         f_unsafe f = true -> check_unsafe_rels fi rels s = Ok tt s -> r2k_rels_ok s (f_mask f) rels.
+Proof. exact qx_check_unsafe_ok. Qed.
+
+Definition C03_all := (C03_accepted_queries_obey_the_natural_specification, C03_unsafe_query_relations_are_validated, C03_preselection_complete, C03_preselection_complete_after_every_history, C03_preselection_examples, C03_filter_matches_sets, C03_exclusive_exact, C03_iteration_is_the_walk, C03_count_is_visited,
+  C03_entity_at, C03_queries_do_not_write, C03_targets_compare_generations,
+  C03_index_exact_after_every_history, C03_index_step, C03_model_is_spec, C03_model_is_rows, C03_spec_executable,
+  C03_query_exact, C03_query_exact_after_every_history, C03_query_exact_typed_after_every_history,
+  C03_query_exact_ok_after_every_history, C03_query_all_exact, C03_unsafe_natural_refuted, C03_query_exact_examples,
+  C03_query_exact_with_observers, C03_query_exact_with_resets).
 Print Assumptions C03_all.
